@@ -7,6 +7,7 @@ import (
 	"encoding/asn1"
 	"fmt"
 	"sort"
+	"sync"
 	"testing"
 
 	"github.com/IBM/TSS/mpc/bls"
@@ -179,6 +180,17 @@ func blsVariants(n, t int) ([]c09Variant, error) {
 		}
 		return v.Verify(digest, sigma)
 	})
+	{
+		badSigma := pertG1(sigma, pPlusGen, nil, nil)
+		if badSigma == nil {
+			badSigma = partial[0]
+		}
+		concurrentVariants(add, func() error { return v.Verify(digest, sigma) }, []func() error{
+			func() error { return v.Verify(digest2, sigma) },
+			func() error { return v.Verify(digest, badSigma) },
+			func() error { return v.Verify(digest, partial[0]) },
+		})
+	}
 	add("control-reinit-same-parameters", true, func() error {
 		w := f.Verifier()
 		if err := w.Init(f.PP); err != nil {
@@ -507,6 +519,32 @@ func psProofVariants(n, t, l int) ([]c09Variant, error) {
 		return ov.Verify(b.proof)
 	})
 	add("proof-of-another-key-verified-here", false, func() error { return v.Verify(b.proofOther) })
+	{
+		alter := func(c comp, k int) []byte {
+			r, _ := splitProof(b.proof)
+			orig := c.get(r)
+			var nv []byte
+			switch c.kind {
+			case 0:
+				nv = pertZr(orig, k, c.get(d1), c.get(d2))
+			case 1:
+				nv = pertG1(orig, k, c.get(d1), c.get(d2))
+			default:
+				nv = pertG2(orig, k, c.get(d1), c.get(d2))
+			}
+			if nv == nil {
+				return b.proofOther
+			}
+			c.set(r, nv)
+			return r.join()
+		}
+		a1, a2 := alter(comps[0], pPlusGen), alter(comps[len(comps)-3], pPlusGen)
+		concurrentVariants(add, func() error { return v.Verify(b.proof) }, []func() error{
+			func() error { return v.Verify(a1) },
+			func() error { return v.Verify(a2) },
+			func() error { return v.Verify(b.proofOther) },
+		})
+	}
 	return vs, nil
 }
 
@@ -801,6 +839,64 @@ func runC09(c c09Case) *vh.Outcome {
 	return o
 }
 
+// concurrentVariants: one verifier object shared by goroutines that verify a genuine object and altered ones at the
+// same time ("verifying is side-effect free"). The genuine verdicts must all be "accepted", the altered ones all
+// "rejected", and nothing may panic.
+func concurrentVariants(add func(string, bool, func() error), genuine func() error, altered []func() error) {
+	run := func() (genuineErr error, alteredAccepted bool, panicked string) {
+		var mu sync.Mutex
+		var wg sync.WaitGroup
+		worker := func(f func() error, isGenuine bool) {
+			defer wg.Done()
+			defer func() {
+				if r := recover(); r != nil {
+					mu.Lock()
+					panicked = fmt.Sprintf("%v", r)
+					mu.Unlock()
+				}
+			}()
+			for i := 0; i < 12; i++ {
+				err := f()
+				mu.Lock()
+				if isGenuine && err != nil && genuineErr == nil {
+					genuineErr = err
+				}
+				if !isGenuine && err == nil {
+					alteredAccepted = true
+				}
+				mu.Unlock()
+			}
+		}
+		for g := 0; g < 2; g++ {
+			wg.Add(1)
+			go worker(genuine, true)
+		}
+		for _, a := range altered {
+			wg.Add(1)
+			go worker(a, false)
+		}
+		wg.Wait()
+		return
+	}
+	add("concurrent-use/genuine-verdicts", true, func() error {
+		g, _, p := run()
+		if p != "" {
+			return fmt.Errorf("panic while one verifier object was used by several goroutines: %s", p)
+		}
+		if g != nil {
+			return fmt.Errorf("a genuine object was rejected while the same verifier object was verifying other objects concurrently: %w", g)
+		}
+		return nil
+	})
+	add("concurrent-use/altered-verdicts", false, func() error {
+		_, acc, p := run()
+		if acc || p != "" {
+			return nil // reported as "altered object accepted"
+		}
+		return fmt.Errorf("all rejected")
+	})
+}
+
 // generalise strips indices from a variant name so that signatures are stable.
 func generalise(s string) string {
 	out := make([]byte, 0, len(s))
@@ -833,7 +929,7 @@ func TestC09(t *testing.T) {
 	shapes := []shape{{"bls", 3, 2, 0}, {"bls", 4, 3, 0}, {"bls", 3, 3, 0}, {"psproof", 3, 2, 2}, {"psreq", 3, 2, 2}, {"psobj", 0, 0, 2}, {"psproof", 2, 2, 1}, {"psreq", 2, 2, 1}, {"psproof", 4, 3, 1}}
 	bases := 4
 	if vh.Thorough() {
-		bases = 40
+		bases = 200
 		shapes = append(shapes, shape{"bls", 5, 3, 0}, shape{"bls", 5, 2, 0}, shape{"bls", 4, 2, 0}, shape{"psproof", 4, 3, 3}, shape{"psreq", 4, 3, 3}, shape{"psproof", 3, 3, 1}, shape{"psobj", 0, 0, 1}, shape{"psobj", 0, 0, 4})
 	}
 	seed := vh.EnvInt("VERIF_SEED", 1)
